@@ -90,7 +90,8 @@ class LinkerScripted(BoundedCheck):
         rnd = random.Random(seed * 31 + 5)
         for _ in range(10000 if tier == 'thorough' else 600):
             k = rnd.randint(1, 3)
-            ids = ['A', 'B', 'C'][:k]
+            # ids in alphabetical insertion order, in an insertion order that is not the sorted one, and of mixed (not mutually comparable) types
+            ids = rnd.choice([['A', 'B', 'C'], ['West', 'East', 'North'], ['C', 'A', 'B'], ['UK', 1, 'EU'], [2, 1, 0]])[:k]
             ma = rnd.randint(0, 4)
             sel = rnd.choice([None, rnd.sample(ids, rnd.randint(0, k)), ids[::-1]])
             yield dict(ids=ids, scripts=[[rnd.choice(VALS) for _ in range(ma)] for _ in ids], min_iter=rnd.randint(0, ma + 1), max_iter=ma,
@@ -216,7 +217,7 @@ class LinkerScripted(BoundedCheck):
             except Exception as ex:  # noqa: BLE001
                 e2 = ex
             direct = [str(m2.status[nt]), int(m2.iterations[nt]), float(m2.X[nt]), r2, type(e2).__name__ if e2 else None]
-            linked = [str(subs['A'].status[nt]), int(subs['A'].iterations[nt]), float(subs['A'].X[nt]), result, ename]
+            linked = [str(subs[ids[0]].status[nt]), int(subs[ids[0]].iterations[nt]), float(subs[ids[0]].X[nt]), result, ename]
             if direct != linked:
                 bad('a linker wrapping a single model solves it to the same statuses, iteration counts and values as solving it directly',
                     'c08.single-model-equivalence', direct, linked, 'single_model_equiv')
